@@ -17,6 +17,21 @@
 #ifndef R_ALIGN
 #define R_ALIGN 4
 #endif
+#if NVARS > 1
+#define I1 1
+#else
+#define I1 0
+#endif
+#if NVARS > 2
+#define I2 2
+#else
+#define I2 0
+#endif
+#if NVARS > 3
+#define I3 3
+#else
+#define I3 0
+#endif
 #define ED(sym) FL(ncmpio_enddef, sym)
 int GA, GB; long long g_xsz; long long IN_len[NVARS], IN_hminfree, IN_vminfree; _Bool IN_isrec[NVARS]; int IN_format;
 
@@ -37,7 +52,7 @@ int ED(NC_begins)(NC *ncp)
 __CPROVER_requires(ncp->vars.ndefined == NVARS && ncp->old == NULL && ncp->safe_mode == 0 && (ncp->flags & NC_MODE_CREATE) && 0 <= GA && GA < GB && GB < NVARS)
 __CPROVER_requires(ncp->h_align == H_ALIGN && ncp->r_align == R_ALIGN && ncp->h_minfree == IN_hminfree && ncp->v_minfree == IN_vminfree && IN_hminfree >= 0 && IN_hminfree < (1 << 20) &&
                    IN_vminfree >= 0 && IN_vminfree < (1 << 20) && g_xsz >= 32 && g_xsz < ((long long)1 << 30) && ncp->begin_rec >= 0 && ncp->begin_rec <= g_xsz && ncp->format == IN_format)
-__CPROVER_assigns(ncp->xsz, ncp->begin_var, ncp->begin_rec, ncp->recsize, ncp->numrecs, V(0)->begin, V(NVARS > 1 ? 1 : 0)->begin, V(NVARS > 2 ? 2 : 0)->begin, GH_COLL)
+__CPROVER_assigns(ncp->xsz, ncp->begin_var, ncp->begin_rec, ncp->recsize, ncp->numrecs, V(0)->begin, V(I1)->begin, V(I2)->begin, V(I3)->begin, GH_COLL)
 __CPROVER_ensures(IMPLIES(IN_format != 1, __CPROVER_return_value == NC_NOERR)) /*@layout_always_exists_for_64bit_offset_formats*/
 __CPROVER_ensures(IMPLIES(__CPROVER_return_value == NC_NOERR, V(GA)->begin % 4 == 0 && V(GB)->begin % 4 == 0 && ncp->begin_var % 4 == 0 && ncp->begin_rec % 4 == 0)) /*@every_begin_4_byte_aligned*/
 __CPROVER_ensures(IMPLIES(__CPROVER_return_value == NC_NOERR, ncp->xsz == g_xsz && ncp->begin_var >= g_xsz + IN_hminfree && V(GA)->begin >= ncp->begin_var && V(GB)->begin >= ncp->begin_var)) /*@data_after_header_and_requested_free_space*/
@@ -62,7 +77,7 @@ void harness(void)
     g_xsz = nondet_ll(); IN_hminfree = nondet_ll(); IN_vminfree = nondet_ll(); IN_format = nondet_int();
     __CPROVER_assume(IN_format == 1 || IN_format == 2 || IN_format == 5);
     for (int i = 0; i < NVARS; i++) {
-        IN_isrec[i] = nondet_bool(); IN_len[i] = nondet_ll(); __CPROVER_assume(IN_len[i] >= 0 && IN_len[i] < ((long long)1 << 32) && IN_len[i] % 4 == 0);
+        IN_isrec[i] = nondet_bool(); IN_len[i] = nondet_ll(); __CPROVER_assume(IN_len[i] >= 4 && IN_len[i] < ((long long)1 << 32) && IN_len[i] % 4 == 0);
         shp[i][0] = IN_isrec[i] ? NC_UNLIMITED : 3; ds[i][0] = nondet_ll(); __CPROVER_assume(ds[i][0] >= 0 && ds[i][0] < 1000);
         var[i].ndims = 1; var[i].shape = shp[i]; var[i].dsizes = ds[i]; var[i].len = IN_len[i]; var[i].xsz = 2; var[i].begin = nondet_ll(); vp[i] = &var[i];
     }
